@@ -165,12 +165,14 @@ def parse(text):
     return v
 
 
-def parse_dump(path, only=None, skip_if=None, stride=None):
+def parse_dump(path, only=None, skip_if=None, stride=None, keep_if=None):
     """Yield one dict {var: value} per state of a TLC -dump file."""
     ordinal = [0]
 
     def wanted(cur):
         if skip_if and any(skip_if in v for v in cur.values()):
+            return False
+        if keep_if and not any(keep_if in v for v in cur.values()):
             return False
         ordinal[0] += 1
         return stride is None or (ordinal[0] % stride[0]) == stride[1] % stride[0]
